@@ -148,11 +148,12 @@ class Ctx:
         self.closures = {}
         self.modrel = None
         self.helpers = {}
+        self.clsname = None
 
     def child(self, mode=None):
         c = Ctx(self.where, mode or self.mode, self.env, self.consts, self.self_kind, self.dsl)
         c.closures = dict(self.closures)
-        c.modrel, c.helpers = self.modrel, self.helpers
+        c.modrel, c.helpers, c.clsname = self.modrel, self.helpers, self.clsname
         return c
 
 
@@ -318,6 +319,8 @@ def pexpr0(cx, node):
                 return f'({"ESub" if f.id == "ESubst" else "SSub"} {p} {var} {q})', 'pat'
             if f.id == 'Proved' and len(node.args) == 1:
                 return pexpr(cx, node.args[0], 'pat')[0], 'proved'
+            if f.id == 'BasicInterpreter' and len(node.args) == 1:
+                return '', 'basicobj'                     # a fresh conclusion-only interpreter
             if f.id == 'bot' and not node.args:
                 return cx.consts['bot()'], 'pat'
             if not node.args and RESOLVER is not None and cx.modrel:
@@ -347,6 +350,17 @@ def pexpr0(cx, node):
                 if k == 'pat' and ty == {'MetaVar', 'ESubst', 'SSubst'}:
                     return f'(is_meta_head {c})', 'bool'
                 fail(w, node, 'isinstance outside the subset')
+        hp = helper_of(cx, ch)
+        if hp is not None:
+            fnh, pn = hp
+            hb = body_of(fnh)
+            if len(hb) == 1 and isinstance(hb[0], ast.Return) and hb[0].value is not None and len(pn) == len(node.args):
+                h = cx.child()
+                for q, an in zip(pn, node.args):
+                    c0, k0 = pexpr0(cx, an)
+                    h.env[q] = (k0, c0)
+                return pexpr0(h, hb[0].value)
+            fail(w, node, 'helper call in an expression: the helper is not a single `return <expr>`')
         if ch and len(ch) >= 2:
             meth = ch[-1]
             if ch[:-1] == ['Implies'] and meth == 'extract':
@@ -374,6 +388,31 @@ class Fresh:
         return f'a{cls.n}'
 
 
+def helper_of(cx, ch):
+    """self._h / cls._h / ClassName._h -> (FunctionDef, its value parameters)"""
+    if not ch or len(ch) != 2 or ch[1] not in cx.helpers:
+        return None
+    if ch[0] not in ('self', 'cls') and ch[0] != getattr(cx, 'clsname', None):
+        return None
+    fn = cx.helpers[ch[1]]
+    static = any(isinstance(d, ast.Name) and d.id == 'staticmethod' for d in fn.decorator_list)
+    a = fn.args
+    if a.vararg or a.kwarg or a.kwonlyargs or a.posonlyargs or a.defaults:
+        fail(cx.where, fn, 'helper parameter kinds outside the subset')
+    return fn, [x.arg for x in (a.args if static else a.args[1:])]
+
+
+def recv_kind(cx, f):
+    """kind (and Coq term) of the receiver of a method call, when it is an expression of the pure subset"""
+    if not isinstance(f, ast.Attribute):
+        return None, None
+    try:
+        c, k = pexpr0(cx, f.value)
+        return k, c
+    except SystemExit:
+        return None, None
+
+
 def is_effectful(cx, node):
     if not isinstance(node, ast.Call):
         return False
@@ -385,10 +424,13 @@ def is_effectful(cx, node):
         return True
     if ch == ['self', '_expr'] and cx.self_kind == 'thunkcall':
         return True
+    rk, _ = recv_kind(cx, f)
+    if rk in ('interp', 'basicobj', 'submod'):
+        return True
+    if ch and len(ch) == 2 and ch[0] == 'self' and cx.self_kind == 'dsl' and ch[1] in cx.dsl and cx.mode == 'M':
+        return True
     if ch:
         head = ch[:-1]
-        if head and head[0] in cx.env and cx.env[head[0]][0] in ('interp', 'basicobj', 'submod'):
-            return True
         if head in (['self'], ['self', 'sub_interpreter'], ['super()']) and cx.self_kind in ('interp', 'transformer', 'memo', 'instopt'):
             return ch[-1] in OPS or ch[-1] == 'pattern'
         if head == ['self'] and cx.self_kind == 'dsl' and ch[-1].startswith('execute_'):
@@ -401,6 +443,11 @@ def bindM(m, var, body):
     if body == f'ret {var}':
         return m
     return f'bind {m} (fun {var} => {body})'
+
+
+def bindM_k(m, k):
+    x = Fresh.get()
+    return bindM(m, x, k(x, 'proved'))
 
 
 def mcall(cx, node, k):
@@ -435,23 +482,28 @@ def mcall(cx, node, k):
     if isinstance(f, ast.Call):
         ch2 = attr_chain(f.func)
         if ch2 and ch2[0] == 'self' and len(ch2) == 2 and ch2[1] in cx.dsl and len(node.args) == 1:
-            pk = cx.dsl[ch2[1]]
-            args = [pexpr(cx, a, kk)[0] for a, kk in zip(f.args, pk['kinds'])]
             it = pexpr(cx, node.args[0], 'interp')[0]
-            th = Fresh.get()
-            pre = ' '.join(['gen_dsl_' + ch2[1]] + (['axs'] if pk['axs'] else []) + args)
-            x = Fresh.get()
-            return f'bind (lift_opt ({pre})) (fun {th} => {bindM(f"(gen_thunk_call {th} {it})", x, k(x, "proved"))})'
+            return mcall(cx, f, lambda th, _k: bindM_k(f'(gen_thunk_call {th} {it})', k))
         fail(w, node, 'call of a call outside the subset')
     if not ch:
-        fail(w, node, 'call target')
+        if isinstance(f, ast.Attribute) and recv_kind(cx, f)[0] in ('interp', 'basicobj', 'submod'):
+            ch = ['<expr>', f.attr]
+        else:
+            fail(w, node, 'call target')
     head, meth = ch[:-1], ch[-1]
     if ch == ['self', '_expr'] and cx.self_kind == 'thunkcall' and len(node.args) == 1:
         it = pexpr(cx, node.args[0], 'interp')[0]
         return finish(f'(th_expr th {it})', 'proved')
+    rk, rc = recv_kind(cx, f)
+    # self.<dsl rule>(args) as a value: the rule constructor may raise
+    if len(ch) == 2 and ch[0] == 'self' and cx.self_kind == 'dsl' and meth in cx.dsl:
+        pk = cx.dsl[meth]
+        args = [pexpr(cx, a, kk)[0] for a, kk in zip(node.args, pk['kinds'])]
+        pre = ' '.join(['gen_dsl_' + meth] + (['axs'] if pk['axs'] else []) + args)
+        return finish(f'(lift_opt ({pre}))', 'thunk')
     # interpreter.<op>(..) / interpreter.pattern(p) / interpreter.into_*_phase()
-    if len(head) == 1 and head[0] in cx.env and cx.env[head[0]][0] == 'interp':
-        it = cx.env[head[0]][1]
+    if rk == 'interp':
+        it = rc
         if meth == 'pattern' and len(node.args) == 1:
             return with_args(node.args, ['pat'], lambda a: finish(f'(obj_pattern {it} {a[0]})', 'pat'))
         if meth in ('into_claim_phase', 'into_proof_phase') and not node.args:
@@ -463,17 +515,17 @@ def mcall(cx, node, k):
             return with_args(node.args, kinds, lambda a: finish('(' + ' '.join([f'o_{meth} (o_ops {it})'] + a) + ')', rk))
         fail(w, node, 'interpreter method outside the subset')
     # b_interp.instantiate(..) on a fresh BasicInterpreter
-    if len(head) == 1 and head[0] in cx.env and cx.env[head[0]][0] == 'basicobj':
+    if rk == 'basicobj':
         if meth == 'instantiate' and len(node.args) == 2:
             return with_args(node.args, ['proved', 'delta'],
                              lambda a: finish(f'(lift_opt (gen_basic_instantiate {a[0]} {a[1]}))', 'proved'))
         fail(w, node, 'BasicInterpreter method outside the subset')
     # submodule.execute_gamma_phase(interpreter, False)
-    if len(head) == 1 and head[0] in cx.env and cx.env[head[0]][0] == 'submod':
+    if rk == 'submod':
         if meth == 'execute_gamma_phase' and len(node.args) == 2:
             it = pexpr(cx, node.args[0], 'interp')[0]
             b = pexpr(cx, node.args[1], 'bool')[0]
-            return finish(f'({cx.env[head[0]][1]} {it} {b})', 'unit')
+            return finish(f'({rc} {it} {b})', 'unit')
         fail(w, node, 'submodule method outside the subset')
     # inside interpreter classes
     if cx.self_kind in ('interp', 'transformer', 'memo', 'instopt'):
@@ -525,7 +577,9 @@ def is_print_only(fn):
     for n in ast.walk(fn):
         if isinstance(n, ast.Call) and not (isinstance(n.func, ast.Name) and n.func.id == 'print'):
             return False
-        if isinstance(n, (ast.Assign, ast.AugAssign, ast.Raise, ast.Assert, ast.Return)):
+        if isinstance(n, (ast.Assign, ast.AugAssign, ast.Raise, ast.Assert)):
+            return False
+        if isinstance(n, ast.Return) and n.value is not None:
             return False
     return True
 
@@ -570,8 +624,15 @@ def block(cx, stmts, fallthrough):
     if isinstance(s, ast.Assign) and len(s.targets) == 1:
         tgt = s.targets[0]
         hch = attr_chain(s.value.func) if isinstance(s.value, ast.Call) else None
-        if hch and len(hch) == 2 and hch[0] == 'self' and hch[1] in cx.helpers:
-            return inline_helper(cx, s, cx.helpers[hch[1]], tail)
+        hp = helper_of(cx, hch)
+        if hp is not None and not (len(body_of(hp[0])) == 1 and isinstance(tgt, ast.Name)):
+            return inline_helper(cx, s, hp[0], hp[1], tail)
+        if isinstance(tgt, ast.Tuple) and isinstance(s.value, ast.Tuple) and len(tgt.elts) == len(s.value.elts) \
+                and all(isinstance(e, ast.Name) for e in tgt.elts):
+            vals = [pexpr0(cx, e) for e in s.value.elts]          # all right-hand sides first, as Python does
+            for e, (c0, k0) in zip(tgt.elts, vals):
+                cx.env[e.id] = (k0, c0)
+            return tail()
         if isinstance(tgt, ast.Tuple) and len(tgt.elts) == 2 and all(isinstance(e, ast.Name) for e in tgt.elts):
             ch = attr_chain(s.value.func) if isinstance(s.value, ast.Call) else None
             if ch == ['Implies', 'extract'] and len(s.value.args) == 1:
@@ -586,9 +647,11 @@ def block(cx, stmts, fallthrough):
         if isinstance(tgt, ast.Name):
             name = tgt.id
             val = s.value
-            if isinstance(val, ast.Call) and isinstance(val.func, ast.Name) and val.func.id == 'BasicInterpreter':
-                cx.env[name] = ('basicobj', '')
-                return tail()
+            if not (cx.mode == 'M' and is_effectful(cx, val)):
+                c0, k0 = pexpr0(cx, val)
+                if k0 == 'basicobj':
+                    cx.env[name] = ('basicobj', '')
+                    return tail()
             if cx.mode == 'M' and is_effectful(cx, val):
                 def k(c, kind):
                     cx.env[name] = (kind, c)
@@ -620,10 +683,10 @@ def block(cx, stmts, fallthrough):
     fail(w, s, 'statement outside the subset')
 
 
-def inline_helper(cx, assign, fn, tail):
-    """`t1[, t2..] = self._helper(a1, ..)`: the helper's body with its parameters bound to the argument values, its
-    `return e1[, e2..]` assigning the targets; translated in place, so the generated text is that of the inlined code.
-    Fails closed when a local of the helper would shadow a variable of the caller that is still live."""
+def inline_helper(cx, assign, fn, pnames, tail):
+    """`t1[, t2..] = self._helper(a1, ..)` (also a static method / ClassName._helper): the helper's body with its parameters
+    bound to the argument values, its final `return E` becoming `t1[, t2..] = E`; translated in place, so the generated text is
+    that of the inlined code.  Fails closed when a local of the helper would shadow a variable of the caller that is still live."""
     w = cx.where
     call = assign.value
     tgt = assign.targets[0]
@@ -631,13 +694,10 @@ def inline_helper(cx, assign, fn, tail):
         [tgt.id] if isinstance(tgt, ast.Name) else None
     if targets is None or call.keywords:
         fail(w, assign, 'helper call form outside the subset')
-    a = fn.args
-    if a.vararg or a.kwarg or a.kwonlyargs or a.posonlyargs or a.defaults:
-        fail(w, fn, 'helper parameter kinds outside the subset')
-    pnames = [x.arg for x in a.args[1:]]
     if len(pnames) != len(call.args):
         fail(w, call, 'helper arity')
-    assigned = set(pnames)
+    hb = body_of(fn)
+    assigned = set()          # names that become binders of the generated term (parameters are only aliases of the arguments)
     for n in ast.walk(fn):
         if isinstance(n, (ast.Assign, ast.AnnAssign)):
             for t in (n.targets if isinstance(n, ast.Assign) else [n.target]):
@@ -650,32 +710,29 @@ def inline_helper(cx, assign, fn, tail):
     if clash:
         fail(w, assign, f'helper local(s) {sorted(clash)} would shadow live variables of the caller')
     rets = [n for n in ast.walk(fn) if isinstance(n, ast.Return)]
-    if len(rets) != 1 or fn.body[-1] is not rets[0]:
+    if len(rets) != 1 or not hb or hb[-1] is not rets[0] or rets[0].value is None:
         fail(w, fn, 'helper must end in its only return')
     h = cx.child()
     h.env = dict(cx.env)
     for pn, an in zip(pnames, call.args):
         c, kind = pexpr0(cx, an)
         h.env[pn] = (kind, c)
-    rv = rets[0].value
-    relts = rv.elts if isinstance(rv, ast.Tuple) else [rv]
-    if len(relts) != len(targets):
-        fail(w, rets[0], 'helper returns a different number of values')
+    # the caller's targets receive the returned value: translate `targets = <returned expr>` in the helper's scope
+    syn = ast.copy_location(ast.Assign(targets=[tgt], value=rets[0].value), assign)
 
     def finish():
-        for t, e in zip(targets, relts):
-            c, kind = pexpr0(h, e)
-            cx.env[t] = (kind, c)
+        for t in targets:
+            if t not in h.env:
+                fail(w, assign, 'returned value of the helper is outside the subset')
+            cx.env[t] = h.env[t]
         for k2, v2 in h.env.items():          # the helper's binders are in scope of the continuation
             cx.env.setdefault(k2, v2)
         return tail()
-    return block_with_return(h, fn.body[:-1], finish)
+    return block_with_return(h, hb[:-1] + [syn], finish)
 
 
 def block_with_return(cx, stmts, finish):
     """translate stmts, then continue with finish() (used for an inlined helper body)"""
-    if not stmts:
-        return finish()
     marker = ast.Pass()
     cx._finish = finish
     return block(cx, list(stmts) + [marker], None)
@@ -771,7 +828,12 @@ def if_stmt(cx, s, rest, fallthrough):
             fail(cx.where, s, 'conditional without return outside an effectful body')
         c1 = block(cx.child(), s.body, 'ret tt')
         c2 = block(cx.child(), s.orelse, 'ret tt') if s.orelse else 'ret tt'
-        out = f'bind (if {t} then {c1} else {c2}) (fun _ => {block(cx, rest, fallthrough)})'
+        if t.startswith('(negb ') and t.endswith(')') and balanced(t):
+            t, c1, c2 = t[len('(negb '):-1], c2, c1
+        if not rest and fallthrough == 'ret tt':
+            out = f'if {t} then {c1} else {c2}'              # nothing follows: the conditional is the tail (unit)
+        else:
+            out = f'bind (if {t} then {c1} else {c2}) (fun _ => {block(cx, rest, fallthrough)})'
     if needs:
         out = f'bind get_mem (fun rt_mem => {out})'
     return out
@@ -912,6 +974,12 @@ def parse(repo, rel):
         raise SystemExit(f'{HERE}: cannot parse {rel}: {e}')
 
 
+def body_of(fn):
+    """the statements of a function without docstring, bare string/ellipsis expressions and `pass`"""
+    return [st for st in fn.body
+            if not (isinstance(st, ast.Expr) and isinstance(st.value, ast.Constant) and isinstance(st.value.value, str))]
+
+
 def find_class(mod, name, rel):
     for n in mod.body:
         if isinstance(n, ast.ClassDef) and n.name == name:
@@ -991,6 +1059,7 @@ def gen_basic(repo, consts, out):
         mode = 'M' if rk == 'unit' else ('opt' if m in ('modus_ponens', 'exists_generalization', 'instantiate') else 'pure')
         cx = Ctx(where, mode, env, consts, 'basic')
         cx.modrel, cx.helpers = rel, private_methods(cls)
+        cx.clsname = cls.name
         cx.env['self.phase'] = ('phase', '')
         body = block(BasicCtx(cx), fn.body, 'ret tt' if mode == 'M' else None)
         sig = ' '.join(f'({v(n)}:{COQTY[k]})' for n, k in ps)
@@ -1013,9 +1082,10 @@ def gen_interp_pattern(repo, consts, out):
     where = 'Interpreter.pattern'
     if params(where, fn) != [('p', 'pat')]:
         fail(where, fn, 'parameters')
-    if not (len(fn.body) == 2 and isinstance(fn.body[0], ast.Match) and isinstance(fn.body[1], ast.Raise)):
+    fb = body_of(fn)
+    if not (len(fb) == 2 and isinstance(fb[0], ast.Match) and isinstance(fb[1], ast.Raise)):
         fail(where, fn, 'body is not `match p: ...` followed by `raise`')
-    mt = fn.body[0]
+    mt = fb[0]
     if not (isinstance(mt.subject, ast.Name) and mt.subject.id == 'p'):
         fail(where, mt, 'match subject')
     arms = []
@@ -1034,12 +1104,16 @@ def gen_interp_pattern(repo, consts, out):
             fail(where, pt, 'sub-patterns must be plain captures')
         cx = Ctx(where, 'M', {}, consts, 'interp')
         cx.modrel, cx.helpers = rel, private_methods(cls)
+        cx.clsname = cls.name
         names = [x.name for x in pt.patterns]
         for nme, k in zip(names, kinds):
             cx.env[nme] = (k, v(nme))
         body = block(cx, case.body, None)
-        arms.append(f'  | {ctor} ' + ' '.join(v(x) for x in names) + f' =>\n      {collapse(body)}')
+        if cname in seen:
+            fail(where, pt, 'two cases for the same class')
+        arms.append((list(MATCH_CTORS).index(cname), f'  | {ctor} ' + ' '.join(v(x) for x in names) + f' =>\n      {collapse(body)}'))
         seen.append(cname)
+    arms = [a for _, a in sorted(arms)]
     out.append(f'(* {rel}:{fn.lineno}  Interpreter.pattern; [ovr] = the override of the concrete method by the class of self,\n'
                '   recursive self.pattern(..) calls go through it again *)\n'
                'Fixpoint obj_pattern_rec (ovr:pat -> M pat -> M pat) (self_ops:ops) (v_p:pat) {struct v_p} : M pat :=\n'
@@ -1166,6 +1240,7 @@ def gen_transformers(repo, consts, out):
         fail(where, fn, 'parameters')
     cx = Ctx(where, 'M', {'p': ('pat', 'v_p')}, consts, 'memo')
     cx.modrel, cx.helpers = rel2, private_methods(me)
+    cx.clsname = me.name
     body = collapse(block(cx, fn.body, None))
     out.append(f'(* {rel2}:{fn.lineno}  MemoizingInterpreter.pattern; sub_stateful = isinstance(self.sub_interpreter, StatefulInterpreter),\n'
                '   inS = membership in self._patterns_for_memoization, rt_mem = self.sub_interpreter.memory,\n'
@@ -1259,6 +1334,7 @@ def gen_dsl(repo, consts, out):
         env = {n: (k, v(n)) for n, k in ps}
         cx = Ctx(where, 'opt', env, consts, 'dsl', dsl)
         cx.modrel, cx.helpers = rel, private_methods(pe)
+        cx.clsname = pe.name
         body = block(cx, fn.body, None)
         sig = ' '.join(([f'(axs:list pat)'] if dsl[m]['axs'] else []) + [f'({v(n)}:{COQTY[k]})' for n, k in ps])
         out.append(f'(* {rel}:{fn.lineno} *)\nDefinition gen_dsl_{m} {sig} : option thunk :=\n  {body}.\n')
@@ -1279,6 +1355,7 @@ def gen_dsl(repo, consts, out):
         env = {n: (k, v(n)) for n, k in ps}
         cx = Ctx(where, 'M', env, consts, 'dsl', dsl)
         cx.modrel, cx.helpers = rel, private_methods(pe)
+        cx.clsname = pe.name
         cx.env['interpreter.phase'] = ('phase', '')
         body = collapse(block(cx, fn.body, 'ret tt'))
         sig = ' '.join(f'({v(n)}:{COQTY[k]})' for n, k in ps)
